@@ -420,6 +420,10 @@ func (Engine) Run(t *testing.T, job *simkit.Job, rng *simkit.RNG, idx int64, c *
 			// only the (small) -one-shell family, whole in every worker
 			all, n = enumerateOneShell(), idx
 		}
+		if job.Property == PropertyLog {
+			// only the (small) LOG family, whole in every worker
+			all, n = enumerateLog(), idx
+		}
 		if n < 0 || n >= int64(len(all)) {
 			return &simkit.Outcome{Done: true}
 		}
@@ -471,6 +475,10 @@ func clipTail(s string, n int) string {
 
 // execute runs the one process of the case and judges it.
 func execute(ev *environment, cs *caseSpec, o *simkit.Outcome) {
+	if expect(cs).kind == expNormal && isLogExit(cs.exitHow()) {
+		executeLog(ev, cs, o)
+		return
+	}
 	reps := 1
 	if expect(cs).kind == expNormal && isInsertExit(cs.exitHow()) {
 		reps = len(insertSweep)
